@@ -167,3 +167,47 @@ def parse(data):
             return ('body', fn)
         return ('ok', fn, {'addr': rest[:6]})
     return ('ok', fn, {'npdu': rest})
+
+
+# ------------------------------------------------------------------ self-test of this model
+def _x(s):
+    return bytes.fromhex(s.replace('.', '').replace(' ', ''))
+
+
+# the frames of the repository's own tests/test_bvll/test_codec.py
+LITERALS = [
+    (RESULT, {'code': 0}, '81.00.0006.0000'),
+    (RESULT, {'code': 1}, '81.00.0006.0001'),
+    (WRITE_BDT, {'bdt': []}, '81.01.0004'),
+    (WRITE_BDT, {'bdt': [(_x('c0.a8.00.fe.ba.c0'), 0xffffff00)]}, '81.01.000e c0.a8.00.fe.ba.c0 ff.ff.ff.00'),
+    (READ_BDT, {}, '81.02.0004'),
+    (READ_BDT_ACK, {'bdt': []}, '81.03.0004'),
+    (READ_BDT_ACK, {'bdt': [(_x('c0.a8.00.fe.ba.c0'), 0xffffff00)]}, '81.03.000e c0.a8.00.fe.ba.c0 ff.ff.ff.00'),
+    (FORWARDED_NPDU, {'addr': _x('c0.a8.00.01.ba.c0'), 'npdu': _x('deadbeef')},
+     '81.04.000e c0.a8.00.01.ba.c0 deadbeef'),
+    (REGISTER_FD, {'ttl': 30}, '81.05.0006 001e'),
+    (READ_FDT, {}, '81.06.0004'),
+    (READ_FDT_ACK, {'fdt': []}, '81.07.0004'),
+    (READ_FDT_ACK, {'fdt': [(_x('c0.a8.00.0a.ba.c0'), 30, 15)]}, '81.07.000e c0.a8.00.0a.ba.c0 001e.000f'),
+    (DELETE_FDT_ENTRY, {'addr': _x('c0.a8.00.0b.ba.c0')}, '81.08.000a c0.a8.00.0b.ba.c0'),
+    (DISTRIBUTE_BROADCAST, {'npdu': _x('deadbeef')}, '81.09.0008 deadbeef'),
+    (ORIGINAL_UNICAST, {'npdu': _x('deadbeef')}, '81.0a.0008 deadbeef'),
+    (ORIGINAL_BROADCAST, {'npdu': _x('deadbeef')}, '81.0b.0008 deadbeef'),
+]
+
+
+def selftest():
+    """the model reproduces and parses the test suite's literal frames; returns mismatches"""
+    bad = []
+    for fn, p, text in LITERALS:
+        octets = _x(text)
+        r = parse(octets)
+        if frame(fn, p) != octets or r[0] != 'ok' or r[1] != fn or frame(fn, r[2]) != octets:
+            bad.append(text)
+    for text, want in (('', 'short'), ('81.00.00', 'short'), ('82.00.0006.0000', 'type'),
+                       ('81.00.0007.0000', 'length'), ('81.00.0005.0000', 'length')):
+        if parse(_x(text)) != ('header', want):
+            bad.append(text)
+    if parse(_x('81.0c.0004')) != ('unknown', 12) or parse(_x('81.00.0007.000000'))[0] != 'body':
+        bad.append('unknown/body')
+    return bad
